@@ -31,6 +31,10 @@ ASSUME IsNackFci(<<0, 0, 0, 16, 0, 20, 0, 1>>, {0, 5, 20, 21})        \* greedy
 ASSUME IsNackFci(<<0, 0, 0, 0, 0, 5, 192, 0>>, {0, 5, 20, 21})         \* another minimal ascending encoding
 ASSUME ~IsNackFci(<<0, 0, 0, 0, 0, 5, 0, 0, 0, 20, 0, 1>>, {0, 5, 20, 21})   \* not minimal
 ASSUME ~IsNackFci(<<255, 250, 0, 128>>, {65530, 2})                     \* wraps: not ascending
+\* the one-pass form of the greedy cover is the recursive one (every subset of a window-sized universe, and spread sets)
+ASSUME \A set \in SUBSET {0, 1, 2, 15, 16, 17, 18, 33, 34, 35, 65535} : NackWords(set) = NackWordsRec(set)
+ASSUME \A k \in 1..40 : \A st \in {1, 2, 7, 16, 17, 18} :
+          LET set == { (100 + st * i) : i \in 0..k } IN NackWords(set) = NackWordsRec(set)
 
 Sdes1 == [kind |-> "sdes", padding |-> 0, chunks |-> <<
    [ssrc |-> <<4660, 22136>>, items |-> <<
